@@ -234,6 +234,12 @@ def createAt (fs : FS) (path : String) : Bool × List Access :=
     -- (the kernel refuses the empty name with ENOENT)
     (validName leaf && leaf != "" && (fs.entry parent leaf).isNone, log ++ [{ handle := parent, name := leaf }])
 
+/-- `fstatat(d, n, AT_SYMLINK_NOFOLLOW)` shows a regular file. -/
+def isFileAt (fs : FS) (d : Ino) (n : Name) : Bool :=
+  match (fs.entry d n).bind fs.get with
+  | some (.file _) => true
+  | _ => false
+
 /-- What `remove(path, file entry)` does when the cache and the entry describe
 the file on disk: the walk with leaf validation, `fstatat(parent, leaf,
 AT_SYMLINK_NOFOLLOW)` and `unlinkat(parent, leaf)`. `true` = removed. -/
@@ -241,8 +247,45 @@ def removeFileAt (fs : FS) (path : String) : Bool × List Access :=
   match walkToParent fs path true with
   | (.error _, log) => (false, log)
   | (.ok (parent, leaf), log) =>
-    let isFile := match (fs.entry parent leaf).bind fs.get with | some (.file _) => true | _ => false
-    (validName leaf && isFile, log ++ [{ handle := parent, name := leaf }])
+    (validName leaf && isFileAt fs parent leaf, log ++ [{ handle := parent, name := leaf }])
+
+/-! ## SetPermissions, and the window between create / validate and it -/
+
+/-- directory_posix.go:193-238 `Directory.SetPermissions(name, …)`: the name is
+validated, then (on Linux) the entry is opened with `openat(O_NOFOLLOW)` and the
+descriptor is `fchmod`-ed — a handle-relative single-name operation that refuses
+symbolic links. The result is the inode whose mode (and ownership) changes. -/
+def setPermAt (fs : FS) (h : Ino) (name : Name) : Except Err Ino :=
+  if !validName name then .error .invalidName else
+  match fs.entry h name with
+  | none => .error .notFound
+  | some c =>
+    match fs.get c with
+    | none => .error .notFound
+    | some (.symlink _) => .error .isLink
+    | some _ => .ok c
+
+/-- `swapFile` when only executability changes (transition.go:693-736): the walk
+with leaf validation and `ensureExpectedFile` (an `fstatat(…, NOFOLLOW)` that must
+show the expected regular file) in the state `fs`, then `SetPermissions(parent,
+leaf)` in the state `fs'` the filesystem has by then. `none` = SetPermissions is
+not reached. -/
+def chmodFileRace (fs fs' : FS) (path : String) : Option (Except Err Ino) × List Access :=
+  match walkToParent fs path true with
+  | (.error _, log) => (none, log)
+  | (.ok (parent, leaf), log) =>
+    if validName leaf && isFileAt fs parent leaf then (some (setPermAt fs' parent leaf), log ++ [{ handle := parent, name := leaf }])
+    else (none, log ++ [{ handle := parent, name := leaf }])
+
+/-- `createDirectory` (transition.go:799-826): the walk and `mkdirat(parent,
+leaf)` in the state `fs`, then `SetPermissions(parent, leaf)` in the state `fs'`. -/
+def createDirRace (fs fs' : FS) (path : String) : Option (Except Err Ino) × List Access :=
+  match createAt fs path with
+  | (false, log) => (none, log)
+  | (true, log) =>
+    match walkToParent fs path false with
+    | (.ok (parent, leaf), _) => (some (setPermAt fs' parent leaf), log)
+    | (.error _, _) => (none, log)
 
 /-! ## Adversary: mutations between steps (used by the driver; the theorems
 quantify over arbitrary successor filesystems instead) -/
